@@ -6,6 +6,7 @@ import (
 	"go/types"
 
 	"github.com/jmattheis/goverter/method"
+	"github.com/jmattheis/goverter/pkgload"
 )
 
 // VerifParseCommon exposes parseCommon to the verification harness.
@@ -49,4 +50,21 @@ func VerifConverter(variables bool, workDir string) (*Converter, func(lines RawL
 // VerifMethodExtras exposes the unexported parts of a parsed method.
 func VerifMethodExtras(m *Method) (updateParam string, contexts map[string]bool) {
 	return m.updateParam, m.localOpts.Context
+}
+
+// VerifParseEach is config.Parse with one package load, but every converter is parsed on its own so
+// that a failing converter does not hide the outcome of the others.
+func VerifParseEach(raw *Raw) ([]*Converter, []error, error) {
+	loader, err := pkgload.New(raw.WorkDir, raw.BuildTags, getPackages(raw))
+	if err != nil {
+		return nil, nil, err
+	}
+	ctx := &context{Loader: loader, EnumTransformers: raw.EnumTransformers, WorkDir: raw.WorkDir}
+	convs := make([]*Converter, len(raw.Converters))
+	errs := make([]error, len(raw.Converters))
+	for i := range raw.Converters {
+		rawConverter := raw.Converters[i]
+		convs[i], errs[i] = parseConverter(ctx, &rawConverter, raw.Global)
+	}
+	return convs, errs, nil
 }
